@@ -11,6 +11,7 @@ PROPERTY = "C08"
 FUNCTIONS = ["TokenParser.parse/_parse/_parse_token/_parse_quoted_string/_parse_escape_sequence/_next",
              "StringArgs.__init__/tokens/option_tokens/has_option_token", "ArgvArgs.__init__/tokens/option_tokens/has_option_token"]
 PART = {}
+EXTRA_BOUNDS = "also: quoted tokens <= 2 chars over {a,space,tab,CR,LF,backslash}; raw_history: 11 command strings (incl. strings that end inside quotes, repeated '--', an optional-value option before '--') wrapped after another string was wrapped and run / shortened / extended, each case in a forked child, with the command and assignment the line resolves to."
 BS = chr(92)
 ALPHA = "a \t'\"" + BS + "-"
 BOUNDS = {"quick": "totality: all strings of length <= 4 over {a,space,tab,',\",backslash,-}; unquoted split law: length <= 5 over {a,b,space,tab,-}; "
